@@ -79,7 +79,24 @@ def coq_build(ctx, targets):
         where = ", ".join("%s:%s" % x for x in m[:3]) or "make"
         err = re.findall(r"Error:[^\n]*(?:\n[^\n]+){0,3}", out)
         return False, where + " :: " + (err[0].replace("\n", " ") if err else out[-300:])
+    if ctx.tier == "thorough":
+        coqchk(ctx, targets)
     return True, ""
+
+
+def coqchk(ctx, targets):
+    """Thorough tier: Coq's independent checker over the compiled files of the property and everything they
+    depend on; it also lists the axioms they rely on."""
+    mods = ["Maddy." + t[len("theories/"):-3].replace("/", ".") for t in targets
+            if t.startswith("theories/") and t.endswith(".vo")]
+    rc, out = sh(["timeout", "3000", "coqchk", "-silent", "-o", "-Q", "theories", "Maddy"] + mods, cwd=COQ)
+    open(os.path.join(ctx.work, "coqchk.log"), "w").write(out)
+    flat = re.sub(r"\s+", " ", out)
+    wanted = ["Axioms: <none>", "relying on type-in-type: <none>", "relying on unsafe (co)fixpoints: <none>",
+              "positivity is assumed: <none>"]
+    ok = rc == 0 and all(w in flat for w in wanted)
+    ctx.oblige("coqchk -silent -o over %d modules and their dependencies: no axioms, no unchecked definitions" % len(mods),
+               ok, "" if ok else flat[-400:])
 
 
 def audit(ctx):
